@@ -1,4 +1,5 @@
 SPECIFICATION Spec
 CONSTANT MaxLen = 2
+CONSTANT CoreOnly = FALSE
 INVARIANT EmitCase
 CHECK_DEADLOCK FALSE
